@@ -114,3 +114,243 @@ def ext_bidict(eng, args, kw, node):
     if len(set(a.v.values())) != len(a.v):
         raise RaiseSig("ValueDuplicationError")
     return Special("dict_lit", pairs=[(Conc(k), Conc(v)) for k, v in a.v.items()])
+
+
+# ---------------------------------------------------------------- E-ipaddress
+NetS = sort_of(Opq("Net"))
+AddrS = sort_of(Opq("Addr"))
+net_of_str = uf("ip_network", S, NetS)
+valid_net = uf("ValidNet4", S, B)          # strict IPv4 network / address text accepted by ip_network()
+net_int = uf("net_int", NetS, I)           # int(net.network_address)
+net_plen = uf("net_plen", NetS, I)
+addr_of_int = uf("addr_of_int", I, I, AddrS)   # (family bits, value)
+addr_int = uf("addr_int", AddrS, I)
+addr_str = uf("addr_str", AddrS, S)
+in_net = uf("InNet", I, NetS, B)
+text_val4 = uf("TextVal4", S, I)           # value of dotted-quad text ignoring leading zeros
+text_val6 = uf("TextVal6", S, I)
+valid_v4 = uf("ValidV4Text", S, B)
+valid_v6 = uf("ValidV6Text", S, B)
+addr_of_text6 = uf("addr_of_text6", S, AddrS)
+addr_of_text4 = uf("addr_of_text4", S, AddrS)
+
+P32 = 4294967296
+P128 = 2 ** 128
+
+
+_LIT_FACTS = {}
+
+
+def _literal_net_facts(eng):
+    """ip_network() on the literal network strings of the working tree (computed with the stdlib ipaddress of the
+    engine's interpreter; part of assumed contract E-ipaddress, conformance-tested against /venv's)."""
+    import ipaddress as _ip
+    lits = set(R.spec_consts.get("DEFAULT_PREFIXES", ()))
+    for name in ("IpAnonymizer.DEFAULT_PRESERVED_PREFIXES", "IpAnonymizer.RFC_1918_NETWORKS"):
+        try:
+            lits |= set(eng.repo.const("netconan.ip_anonymization", name))
+        except KeyError:
+            pass
+    key = tuple(sorted(lits))
+    if key in _LIT_FACTS:
+        return _LIT_FACTS[key]
+    out = []
+    for l in key:
+        try:
+            n = _ip.ip_network(l)
+            if n.version != 4:
+                raise ValueError
+            out.append(Schema("E-ipaddress.lit[%s]" % l, [], z3.And(
+                valid_net(zstr(l)), net_plen(net_of_str(zstr(l))) == n.prefixlen,
+                net_int(net_of_str(zstr(l))) == int(n.network_address)), triggers=None, origin="assumed"))
+        except ValueError:
+            out.append(Schema("E-ipaddress.lit[%s]" % l, [], z3.Not(valid_net(zstr(l))), triggers=None,
+                              origin="assumed"))
+    _LIT_FACTS[key] = out
+    return out
+
+
+@R.axiom
+def e_ipaddress(eng):
+    n = z3.Const("ei.n", NetS)
+    x, f = z3.Int("ei.x"), z3.Int("ei.f")
+    s = z3.Const("ei.s", S)
+    p2 = lib.pow2
+    return [
+        Schema("E-ipaddress.net", [n], z3.And(net_plen(n) >= 0, net_plen(n) <= 32, net_int(n) >= 0, net_int(n) < P32),
+               triggers=[[net_plen(n)], [net_int(n)]], origin="assumed"),
+        Schema("E-ipaddress.addr_int", [f, x], addr_int(addr_of_int(f, x)) == x,
+               triggers=[[addr_of_int(f, x)]], origin="assumed"),
+        Schema("E-ipaddress.innet", [x, n],
+               in_net(x, n) == (z3.SubSeq(lib.Bfun(x, zint(32)), zint(0), net_plen(n)) ==
+                                z3.SubSeq(lib.Bfun(net_int(n), zint(32)), zint(0), net_plen(n))),
+               triggers=[[in_net(x, n)]], origin="assumed"),
+        Schema("E-ipaddress.text4", [s], z3.Implies(valid_v4(s), z3.And(
+            text_val4(s) >= 0, text_val4(s) < P32, addr_int(addr_of_text4(s)) == text_val4(s))),
+            triggers=[[addr_of_text4(s)], [text_val4(s)]], origin="assumed"),
+        Schema("E-ipaddress.text6", [s], z3.Implies(valid_v6(s), z3.And(
+            text_val6(s) >= 0, text_val6(s) < P128, addr_int(addr_of_text6(s)) == text_val6(s))),
+            triggers=[[addr_of_text6(s)], [text_val6(s)]], origin="assumed"),
+    ] + _literal_net_facts(eng) + [
+        Schema("E-pow2.32", [], p2(zint(32)) == P32, triggers=None, origin="assumed"),
+        Schema("E-pow2.128", [], p2(zint(128)) == P128, triggers=None, origin="assumed"),
+    ]
+
+
+@R.external("ipaddress.ip_network")
+def ext_ip_network(eng, args, kw, node):
+    eng.used_assumptions.add("E-ipaddress")
+    s = eng.term(args[0], STR)
+    ok = valid_net(s)
+    if eng.may_catch("ValueError") and not eng.spec_mode:
+        if not eng.decide(ok):
+            raise RaiseSig("ValueError")
+    else:
+        eng.safety("ip_network[valid text]", ok, node)
+    return P(Opq("Net"), net_of_str(s))
+
+
+@R.external("attr.Net.network_address")
+def net_network_address(eng, args, kw, node):
+    n = args[0].term
+    return P(Opq("Addr"), addr_of_int(zint(32), net_int(n)))
+
+
+@R.external("attr.Net.prefixlen")
+def net_prefixlen(eng, args, kw, node):
+    return P(INT, net_plen(args[0].term))
+
+
+@R.external("int.of.Addr")
+def int_of_addr(eng, args, kw, node):
+    return P(INT, addr_int(args[0].term))
+
+
+def _addr_ctor(bits):
+    def h(eng, args, kw, node):
+        eng.used_assumptions.add("E-ipaddress")
+        a = args[0]
+        if isinstance(a, Conc) and isinstance(a.v, int):
+            a = P(INT, zint(a.v))
+        if isinstance(a, P) and a.ty == INT:
+            lim = P32 if bits == 32 else P128
+            ok = z3.And(a.term >= 0, a.term < lim)
+            if eng.may_catch("ValueError") and not eng.spec_mode:
+                if not eng.decide(ok):
+                    raise RaiseSig("AddressValueError")
+            else:
+                eng.safety("IPv%dAddress[int range]" % (4 if bits == 32 else 6), ok, node)
+            return P(Opq("Addr"), addr_of_int(zint(bits), a.term))
+        s = eng.term(a, STR)
+        ok = valid_v4(s) if bits == 32 else valid_v6(s)
+        if eng.may_catch("ValueError") and not eng.spec_mode:
+            if not eng.decide(ok):
+                raise RaiseSig("AddressValueError")
+        else:
+            eng.safety("IPv%dAddress[valid text]" % (4 if bits == 32 else 6), ok, node)
+        return P(Opq("Addr"), (addr_of_text4 if bits == 32 else addr_of_text6)(s))
+    return h
+
+
+R.ext["ipaddress.IPv4Address"] = _addr_ctor(32)
+R.ext["ipaddress.IPv6Address"] = _addr_ctor(128)
+
+
+@R.external("ipaddress.ip_address")
+def ext_ip_address(eng, args, kw, node):
+    """ip_address(int): IPv4 below 2**32 (only use in netconan: IpAnonymizer.should_anonymize)"""
+    eng.used_assumptions.add("E-ipaddress")
+    a = args[0]
+    t = eng.term(a, INT)
+    eng.safety("ip_address[int range]", z3.And(t >= 0, t < P32), node)
+    return P(Opq("Addr"), addr_of_int(zint(32), t))
+
+
+@R.external("ipaddress.contains")
+def ext_in_net(eng, args, kw, node):
+    net, ip = args
+    return in_net(addr_int(ip.term), net.term)
+
+
+@R.external("str.of.Addr")
+def str_of_addr(eng, args, kw, node):
+    return P(STR, addr_str(args[0].term))
+
+
+# ---------------------------------------------------------------- symbolic lists (value semantics; cells in the heap)
+@R.external("comprehension")
+def ext_comprehension(eng, args, kw, node):
+    """[f(x) for x in L] over a symbolic sequence L: fresh sequence r, len(r)==len(L), r[j]==f(L[j])."""
+    n, kind, it = args
+    src = lib.seq_of(eng, it)
+    if src is None:
+        raise Unsupported("comprehension over %r" % (it,))
+    g = n.generators[0]
+    if g.ifs:
+        h = R.ext.get("comprehension.filter")
+        if h is None:
+            raise Unsupported("filtered comprehension over symbolic sequence")
+        return h(eng, args, kw, node)
+    if kind != "list":
+        raise Unsupported("%s comprehension over symbolic sequence" % kind)
+    i = z3.Int(eng.fresh_name("comp.i"))
+    ln = z3.Length(src.term)
+    saved = dict(eng.st.vars)
+    eng.guards.append(z3.And(i >= 0, i < ln))
+    try:
+        eng.assign(g.target, P(src.ty.args[0], src.term[i]))
+        v = eng.ev(n.elt)
+    finally:
+        eng.guards.pop()
+        eng.st.vars = saved
+    if isinstance(v, P) and v.ty == BOOL:
+        return Special("mapped", src=src, body=v.term, ivar=i)
+    if not isinstance(v, P):
+        raise Unsupported("comprehension element %r" % (v,))
+    r = z3.Const(eng.fresh_name("comp"), sort_of(SeqT(v.ty)))
+    eng.st.pc.append(z3.Length(r) == ln)
+    j = z3.Int(eng.fresh_name("comp.j"))
+    eng.st.schemas.append(Schema("comp.elem", [j], z3.Implies(z3.And(j >= 0, j < ln),
+                                                               r[j] == z3.substitute(v.term, (i, j)))))
+    return lib.alloc(eng, Ty("list", v.ty), P(SeqT(v.ty), r), "cell.comp")
+
+
+@R.external("cell.extend")
+def ext_extend(eng, args, kw, node):
+    recv, other = args
+    c = eng.st.heap[recv.rid]
+    a = lib.seq_of(eng, recv)
+    b = lib.seq_of(eng, other)
+    if a is None and b is not None:
+        a = P(b.ty, z3.Empty(sort_of(b.ty)))
+    if b is None and a is not None:
+        b = P(a.ty, z3.Empty(sort_of(a.ty)))
+    if a is None:
+        return NoneV()
+    eng.st.heap[recv.rid] = P(a.ty, z3.Concat(a.term, b.term))
+    return NoneV()
+
+
+def _list_extend(eng, ref, c, other):
+    return ext_extend(eng, [ref, other], {}, None)
+
+
+R.list_extend = _list_extend
+
+
+@R.axiom
+def seq_facts(eng):
+    """theorems of the sequence theory (not assumptions), given as instantiation help"""
+    SS = sort_of(SeqT(STR))
+    a, b = z3.Const("sf.a", SS), z3.Const("sf.b", SS)
+    i = z3.Int("sf.i")
+    cat = z3.Concat(a, b)
+    return [Schema("seq.nth_concat", [a, b, i], z3.And(
+        z3.Implies(z3.And(i >= 0, i < z3.Length(a)), cat[i] == a[i]),
+        z3.Implies(z3.And(i >= z3.Length(a), i < z3.Length(a) + z3.Length(b)), cat[i] == b[i - z3.Length(a)])),
+        triggers=[[cat[i]]], origin="theory")]
+
+
+@R.external("spec.ValidNet4")
+def _unused(eng, args, kw, node):  # pragma: no cover
+    raise Unsupported("n/a")
